@@ -47,7 +47,17 @@ def write_message(message, path, dateformat="%Y-%m-%d_%H:%M:%S", ext=".txt"):
     # ensure we have a bytes type message
     if isinstance(message, str):
         message = bytes(message, "utf-8")
-    with open(os.path.join(path, filename), "wb") as f:
+    # never overwrite an existing file, e.g. of a message stored within the
+    # same second: create the file exclusively and number the name if taken
+    idx = 0
+    while True:
+        try:
+            fd = open(os.path.join(path, filename), "xb")
+            break
+        except FileExistsError:
+            idx += 1
+            filename = "{}_{}{}".format(timestamp, idx, ext)
+    with fd as f:
         f.write(message)
 
 
